@@ -71,10 +71,11 @@ def checkPatterns (npats : Nat) (pat : PatFn) : Nat → Line → Line → Bool
 
 def patFuel (a e : Line) : Nat := a.length + e.length + 1
 
-/-- can_ignore (:417-440): substrings are looked for in the *expected* line only. -/
+/-- can_ignore (:417-440) as check_strings calls it: on the lines as compared (after the stripping requested);
+    substrings are looked for in the *expected* line only. -/
 def canIgnore (o : Opts) (pat : PatFn) (a e : Line) : Bool :=
-  o.ignoreSubstrings.any (fun s => contains e s) ||
-  checkPatterns o.npats pat (patFuel a e) a e
+  o.ignoreSubstrings.any (fun s => contains (normalize o e) s) ||
+  checkPatterns o.npats pat (patFuel (normalize o a) (normalize o e)) (normalize o a) (normalize o e)
 
 /-- `if xs and len(xs[-1]) == 0: xs = xs[:-1]` -/
 def dropTrailingEmpty (l : List Line) : List Line :=
